@@ -372,18 +372,17 @@ fn stock_shell_aborts(ctx: &Ctx) {
             let mut command = std::process::Command::new(stock);
             command.current_dir(&dir).env_clear().env("PATH", "/bin:/usr/bin").env("LANG", "C");
             let mname = ["script file", "-c string", "standard input"][mode];
+            let mut input = None;
             match mode {
                 0 => {
-                    command.arg("s.sh").stdin(std::process::Stdio::null());
+                    command.arg("s.sh");
                 }
                 1 => {
-                    command.args(["-c", &script]).stdin(std::process::Stdio::null());
+                    command.args(["-c", &script]);
                 }
-                _ => {
-                    command.stdin(std::fs::File::open(dir.join("s.sh")).unwrap());
-                }
+                _ => input = Some(script.clone().into_bytes()),
             }
-            let out = command.output();
+            let out = crate::util::run_child(command, input, 60);
             let _ = std::fs::remove_dir_all(&dir);
             let Ok(out) = out else {
                 ctx.inconclusive.fetch_add(1, std::sync::atomic::Ordering::Relaxed);
